@@ -1,0 +1,4 @@
+//! Verification hooks. Compiled only with `--cfg flea1lt_sentinel_rust_verif`.
+//! Everything here is inert unless a harness switches it on.
+
+pub mod clock;
